@@ -91,6 +91,7 @@ pub fn exec_epoch(
     .to_string();
     let mut child = Command::new(exe)
         .arg("child")
+        .args(&epoch.argv)
         .stdin(Stdio::piped())
         .stdout(Stdio::piped())
         .stderr(Stdio::null())
